@@ -155,12 +155,18 @@ TAlloc == /\ IsEvent("Alloc")
                /\ Expect(pg \cap PP = {}, "allocated a pending page")
           /\ UNCHANGED <<pend, readers, tree, flp, flc, vhwm, cur, fs, opt, sc>>
 
+\* fault injection point "the size-limit check of this allocation at the end of the file fails" (C08): an IO event of
+\* kind sizecheck precedes every such allocation; a failed one is followed by an injected AllocRefused
+TIOSizeCheck == /\ IsEvent("IO") /\ E.kind = "sizecheck"
+                /\ Expect(w.open /\ ~w.metaEv, "allocation at the end of the file outside the write transaction")
+                /\ w' = IF E.fail THEN [w EXCEPT !.failed = TRUE] ELSE w
+                /\ UNCHANGED <<free, pend, readers, tree, flp, flc, vhwm, cur, fs, opt, sc>>
 TAllocRefused == /\ IsEvent("AllocRefused")
-                 /\ Expect(w.open /\ opt.maxSize > 0, "size refusal without MaxSize")
+                 /\ Expect(w.open /\ (E.injected \/ opt.maxSize > 0), "size refusal without MaxSize")
                  \* ... and it is only refused if it really would not fit
                  /\ LET minsz == (E.hwm + E.n + 1) * opt.ps
                         mm == IF minsz < E.datasz THEN E.datasz ELSE MmapSize(minsz)
-                    IN Expect(GrowSize(mm, minsz, opt.allocSize) > opt.maxSize,
+                    IN Expect(E.injected \/ GrowSize(mm, minsz, opt.allocSize) > opt.maxSize,
                               <<"allocation refused although the file would stay within MaxSize (C18)", GrowSize(mm, minsz, opt.allocSize), opt.maxSize>>)
                  /\ w' = [w EXCEPT !.failed = TRUE]
                  /\ UNCHANGED <<free, pend, readers, tree, flp, flc, vhwm, cur, fs, opt, sc>>
@@ -350,7 +356,7 @@ TCrashProbe ==
    /\ UNCHANGED <<free, pend, readers, tree, flp, flc, vhwm, cur, w, fs, opt, sc>>
 
 TNext == \/ TReset \/ TReopen \/ TLoadPage \/ TLoadScan \/ TBeginRead \/ TEndRead \/ TBeginWrite \/ TFree \/ TAlloc
-         \/ TAllocRefused \/ TMetaWrite \/ TIOInit \/ TIOIdle \/ TIOMmap \/ TIOTruncate \/ TIOFsync \/ TIOWriteData
+         \/ TAllocRefused \/ TIOSizeCheck \/ TMetaWrite \/ TIOInit \/ TIOIdle \/ TIOMmap \/ TIOTruncate \/ TIOFsync \/ TIOWriteData
          \/ TIOWriteMeta \/ TIOSync \/ TCommitDone \/ TRollbackUser \/ TRollbackPhysical \/ TEndWrite
          \/ TDecoded \/ TStats \/ TCheck \/ TCrashProbe
 TSpec == TInit /\ [][TNext]_bvars
